@@ -193,7 +193,8 @@ def gen_time(rng):
         span = 10
     d, dw = gen_dispose(rng, src, always=True)
     d = min(d, T0 + 400)
-    return {"op": "win_time", "src": src, "span": span, "shift": shift, "dispose": d, "dw": dw}
+    return {"op": "win_time", "src": src, "span": span, "shift": shift, "dispose": d, "dw": dw,
+            "sub_sched": rng.choice([None, None, "test", "immediate"])}
 
 
 def gen_time_count(rng):
@@ -201,7 +202,8 @@ def gen_time_count(rng):
     d, dw = gen_dispose(rng, src, always=True)
     d = min(d, T0 + 400)
     return {"op": "win_time_count", "src": src, "span": rng.choice([1, 5, 10, 20, 30, 50, 100]),
-            "count": rng.choice([1, 2, 2, 3, 5]), "dispose": d, "dw": dw}
+            "count": rng.choice([1, 2, 2, 3, 5]), "dispose": d, "dw": dw,
+            "sub_sched": rng.choice([None, None, "test", "immediate"])}
 
 
 US_SPANS = [2_010_000, 4_020_000, 8_030_000, 1_001_000, 10_500, 1_000_500, 2_000_001, 333_333, 100_000, 1_000_000, 50_001]
@@ -236,7 +238,7 @@ def gen_time_us(rng):
     d = rng.choice(marks[:8]) + rng.choice([-1, 0, 1, 500_000]) if rng.random() < 0.5 else T0_US + 9 * sh + span
     d = max(d, T0_US)
     return {"op": "win_time", "us": True, "t0": T0_US, "src": src, "span": span, "shift": shift, "dispose": d,
-            "dw": rng.random() < 0.6, "as_td": rng.random() < 0.3,
+            "dw": rng.random() < 0.6, "as_td": rng.random() < 0.3, "sub_sched": rng.choice([None, None, "test"]),
             "horizon": max([d] + [m[0] for m in src]) + 3 * (sh + span) + 10}
 
 
@@ -247,7 +249,7 @@ def gen_time_count_us(rng):
     d = rng.choice(marks) + rng.choice([-1, 0, 1, 500_000]) if rng.random() < 0.5 else T0_US + 10 * span
     d = max(d, T0_US)
     return {"op": "win_time_count", "us": True, "t0": T0_US, "src": src, "span": span, "count": rng.choice([1, 2, 3, 5]),
-            "dispose": d, "dw": rng.random() < 0.6, "as_td": rng.random() < 0.3,
+            "dispose": d, "dw": rng.random() < 0.6, "as_td": rng.random() < 0.3, "sub_sched": rng.choice([None, None, "test"]),
             "horizon": max([d] + [m[0] for m in src]) + 4 * span + 10}
 
 
@@ -527,8 +529,14 @@ def run_real(case, buffer):
 
     def do_sub(sc, st):
         o = build(case, hots, s, buffer)
+        kw = {}
+        if case.get("sub_sched"):
+            # a DIFFERENT scheduler at subscribe level (never started): the scheduler given explicitly to the operator
+            # must win, so nothing changes
+            from reactivex.scheduler import ImmediateScheduler
+            kw["scheduler"] = TestScheduler() if case["sub_sched"] == "test" else ImmediateScheduler()
         sub.append(o.subscribe(on_next, lambda e: log.append([now(), "O", ["E", err_name(e)]]),
-                               lambda: log.append([now(), "O", ["C"]])))
+                               lambda: log.append([now(), "O", ["C"]]), **kw))
 
     def do_disp(sc, st):
         log.append([now(), "D"])
@@ -1269,6 +1277,8 @@ def bucket(case, out):
         yield "cold source and cold boundaries at equal instants"
     if case.get("derived") is not None:
         yield "derived from the source (tie order = subscription order):" + case["op"]
+    if case.get("sub_sched"):
+        yield "operator scheduler A + subscribe scheduler B (" + case["sub_sched"] + ")"
     if case.get("us"):
         yield "float seconds / timedelta spans (microsecond clock)"
     if "resub" in out:
